@@ -89,6 +89,8 @@ def mutations(y, pos=0):
     if alt != first(sh):
         d = m(); d["sensitive_hosts"][alt] = d["sensitive_hosts"][first(sh)]; yield "sensitive-duplicate", d
     d = m(); d["sensitive_hosts"][first(sh)] = 0; yield "sensitive-value-zero", d
+    d = m(); d["sensitive_hosts"][last(sh)] = float("nan"); yield "sensitive-value-nan", d
+    d = m(); d["sensitive_hosts"][first(sh)] = float("-inf"); yield "sensitive-value-minus-inf", d
     d = m(); d["sensitive_hosts"][last(sh)] = -5; yield "sensitive-value-negative", d
     for sec, fields, tgt in (("exploits", ["service", "os", "prob", "cost", "access"], "service"),
                              ("privilege_escalation", ["process", "os", "prob", "cost", "access"], "process")):
@@ -105,6 +107,10 @@ def mutations(y, pos=0):
         d = m(); d[sec][n1]["prob"] = 1.5; yield f"{sec}-prob-above-1", d
         d = m(); d[sec][n0]["prob"] = 1.0000001; yield f"{sec}-prob-just-above-1", d
         d = m(); d[sec][n0]["prob"] = -0.1; yield f"{sec}-prob-negative", d
+        for tag, bad in (("nan", float("nan")), ("inf", float("inf")), ("minus-inf", float("-inf"))):
+            d = m(); d[sec][n1]["prob"] = bad; yield f"{sec}-prob-{tag}", d
+        d = m(); d[sec][n0]["cost"] = float("nan"); yield f"{sec}-cost-nan", d
+        d = m(); d[sec][n1]["cost"] = float("-inf"); yield f"{sec}-cost-minus-inf", d
         d = m(); d[sec][n1]["cost"] = 0; yield f"{sec}-cost-zero", d
         d = m(); d[sec][n0]["cost"] = -1; yield f"{sec}-cost-negative", d
         d = m(); d[sec][n0]["access"] = "admin"; yield f"{sec}-access-unknown-name", d
@@ -114,6 +120,7 @@ def mutations(y, pos=0):
     for sc in ("service_scan_cost", "os_scan_cost", "subnet_scan_cost", "process_scan_cost"):
         d = m(); d[sc] = -1; yield f"{sc}-negative", d
         d = m(); d[sc] = -0.5; yield f"{sc}-negative-fraction", d
+        d = m(); d[sc] = float("-inf"); yield f"{sc}-minus-inf", d
     hc = list(y["host_configurations"])
     h0, hl = first(hc), last(hc)
     d = m(); del d["host_configurations"][hl]; yield "host-missing", d
